@@ -136,11 +136,11 @@ func canon(v ssa.Value) ssa.Value {
 type FactKind int
 
 const (
-	FNil     FactKind = iota // V == nil holds
-	FNonNil                  // V != nil holds
-	FTrue                    // bool V is true
-	FFalse                   // bool V is false
-	FCmp                     // X Op Y holds
+	FNil    FactKind = iota // V == nil holds
+	FNonNil                 // V != nil holds
+	FTrue                   // bool V is true
+	FFalse                  // bool V is false
+	FCmp                    // X Op Y holds
 )
 
 type Fact struct {
